@@ -917,6 +917,11 @@ with SqlImpl.impl_store.impl_manager as impl:
     def _is_not_inf(x, *, _Impl):
         return (x != _Impl.inf()) & (x != -_Impl.inf())
 
+    @impl(ops.bool_invert)
+    def _invert(x):
+        # SQLAlchemy gives the negation of an AND / OR list the NULL type: the column would be exported as an integer
+        return sqa.type_coerce(~x, sqa.Boolean())
+
     @impl(ops.coalesce)
     def _coalesce(*x):
         if len(x) == 1:
